@@ -41,8 +41,11 @@ fn id_hex<C: Suite>(id: &Identifier<C>) -> String {
     hexs(&id.serialize())
 }
 
+/// The identifier for a u16, computed by the harness's own arithmetic (RFC 9591: the integer as a scalar) and NOT through
+/// `Identifier::try_from(u16)`: the worlds must not inherit a defect of the conversion they help to check (C02 compares the
+/// library's conversion with the reference for a sweep of values).
 fn u16_id<C: Suite>(v: u16) -> Identifier<C> {
-    Identifier::<C>::try_from(v).expect("nonzero")
+    id_from_scalar::<C>(&sc_from_u64::<C>(v as u64)).expect("nonzero")
 }
 
 /// `count` distinct identifiers under the named scheme, in node order.
